@@ -277,7 +277,10 @@ pub fn run(op: &str, a: &[&str]) -> Option<String> {
                 if rr.class != Qclass::ANY.into() || u32::from(rr.ttl) != 0 {
                     return "bad-class-ttl".to_string();
                 }
-                format!("ok {} {} {}", hex(&mac), hex(rr.rdata.octets()), hex(rr.owner.wire_repr()))
+                // the owner may have been compressed (Standard mode) against an earlier name that differs in
+                // case: names are compared ignoring ASCII case (length octets are ≤ 63, so lower-casing
+                // the wire form touches letters only)
+                format!("ok {} {} {}", hex(&mac), hex(rr.rdata.octets()), hex(&rr.owner.wire_repr().to_ascii_lowercase()))
             })
         }
         ("tverify", [mode, alg, k, now, m, keyname, rdata, pmac]) => {
